@@ -9,6 +9,7 @@ Open Scope N_scope.
 Open Scope nat_scope.
 (* [String] also defines [length]/[concat]...; the list versions are the ones meant everywhere *)
 Notation length := Datatypes.length.
+Notation concat := List.concat.
 
 (* ---------------------------------------------------------------- results *)
 
